@@ -10,6 +10,19 @@ NOTE = ("Trusted: Lean 4.33 kernel; axioms propext/Classical.choice/Quot.sound o
         "tolerances; CPython/numpy/pint/scipy. Modelled rather than verified: the Python code itself.")
 
 CHECKS = {
+    "C20": {
+        "engine": "sched",
+        "text": ("Lean theorems: static_out_once / static_history (one publication, served for every request time incl. "
+                 "none, further publications refused — over every op history), static_in_cached, ready_through_pull (the "
+                 "scheduling guarantee of updateRec_sound extends through pull-based components, recursively), "
+                 "provider_pulls_same_time, weighted_sum_value and weighted_sum_repeated_request (the memo never blocks a "
+                 "request). Tied to sdk/output.py, sdk/input.py, components/mergers.py, schedule.py by three "
+                 "correspondences (static slot histories; compositions reading through one or two pull-based components, "
+                 "incl. two-output components and diamonds; WeightedSum with mixed units and consumers asking for the "
+                 "same time) plus implementation-only oracles."),
+        "design_ref": "5/C20",
+        "technique": "Lean 4 proof (induction over op histories; inversion of the availability relation) + model/implementation correspondence",
+    },
     "C13": {
         "engine": "sched",
         "text": ("Lean theorems: dfix_request (= max(t-d, start)), dpull_request (request-table invariant by induction over "
